@@ -430,8 +430,14 @@ class CallListerVisitor(ast.NodeVisitor):
                 instance = instance.value
             if isinstance(instance, Arg):
                 self.namespace[instance.name].tainted = node
-        args = [self.resolve_name(arg) for arg in node.args
-                if not isinstance(arg, Starred)]
+        args = []
+        for arg in node.args:
+            if isinstance(arg, Starred):
+                break
+            args.append(self.resolve_name(arg))
+        # func(*args, value): value lands behind whatever *args holds
+        trailing = any(
+            not isinstance(arg, Starred) for arg in node.args[len(args):])
         kwargs = dict(
             (kw.arg, self.resolve_name(kw.value))
             for kw in node.keywords if kw.arg is not None)
@@ -441,6 +447,8 @@ class CallListerVisitor(ast.NodeVisitor):
         varkwargs = self.resolve_name(starkwargs, ro=True) if starkwargs else None
         use_varargs, hide_args = \
             self.has_hide_starargs(varargs, self.varargs)
+        if trailing:
+            use_varargs, hide_args = False, True
         use_varkwargs, hide_kwargs = \
             self.has_hide_starargs(varkwargs, self.varkwargs)
         self.calls.append(Call(
